@@ -35,8 +35,8 @@ class C07(Prop):
         "Report; plus silent agent (timeout mapping). expected result from the documented table. non-trivial = a scripted reply was "
         "delivered; distinct = distinct abstract trace plus the shape of the reply (count and kinds of varbinds)"
     )
-    quick_runs = 3000
-    thorough_runs = 50000
+    quick_runs = 30000
+    thorough_runs = 400000
 
     def families(self, tier):
         return [("v2c", 3), ("v1", 2), ("v3", 3)]
